@@ -388,7 +388,12 @@ func (a Aux) Tag() Tag { var t Tag; copy(t[:], a[:2]); return t }
 
 // Type returns a byte corresponding to the type of the auxiliary tag.
 // Returned values are in {'A', 'c', 'C', 's', 'S', 'i', 'I', 'f', 'Z', 'H', 'B'}.
-func (a Aux) Type() byte { return a[2] }
+func (a Aux) Type() byte {
+	if len(a) < 3 {
+		return 0
+	}
+	return a[2]
+}
 
 // Kind returns a byte corresponding to the kind of the auxiliary tag.
 // Returned values are in {'A', 'i', 'f', 'Z', 'H', 'B'}.
